@@ -4,7 +4,7 @@ import AldorVerif.Model.PriQ
 One history per line: `Q <argcGuess> op op …` starting from `priqNew(argcGuess)`.
 ops: `i:k:e` priqInsert (key `k` may be negative) → `.` · `x` priqExtractMin → `k:e` (or `empty`:
 the C driver does not call the function on an empty queue) · `p` priqPeekMin → `k:e`/`empty`
-`n` priqCount · `z` allocated size · `k` priqCheck → 1/0 (0 = it would call `bug`)
+`n` priqCount · `z` allocated size · `k` priqCheck → 1 (0 = the C code calls `bug` and aborts)
 `m` priqMap (pre-order) · `d` the used slots in array order.  Answer: results joined by `;`. -/
 namespace AldorVerif.Driver.PriQ
 open AldorVerif.PriQ
